@@ -109,6 +109,10 @@ package jsonrpc2
 // JSON encoding only allocates (library code): nothing that existed before is written. Assumed.
 //@ func marshalToRaw
 //@   trusted
+// internalErrorf reports to the user's callback (or panics): assumed not to touch connection or request objects.
+//@ func (*Connection).internalErrorf
+//@   trusted
+//@   ensures result != nil
 
 // retire completes a call exactly once: it panics when the call is already complete, so every caller must know the
 // call is still open. (Used inline at call sites; this unit checks the body.)
@@ -154,3 +158,56 @@ package jsonrpc2
 //@   ensures @breaks-only-on-unattributable-failure calls(breakConnection) >= 1 ==> result != nil && calls(ctxErr) >= 1 && callResult(ctxErr, 1, 0) == nil && !errIs(result, ErrRejected)
 //@   ensures @success-never-breaks result == nil ==> calls(breakConnection) == 0
 //@   ensures @at-most-one-transport-write calls(transportWrite) <= 1
+
+// ---------------------------------------------------------------------------------------------
+// C03: the dispatcher starts one handler at a time and waits until it has returned or declared itself asynchronous
+// ---------------------------------------------------------------------------------------------
+//@ func (*Connection).handleAsync [C03]
+//@   ghostvar inflight chan struct{} = nil
+//@   on call go:handleAsync$2: inflight = local(releaser).ch
+//@   modifies *
+//@   requires c != nil
+//@   assert at call go:handleAsync$2: @one-at-a-time inflight == nil || closed(inflight)
+//@   loop 1: invariant @previous-handler-released inflight == nil || closed(inflight)
+
+// The handler goroutine releases the dispatcher only after Handle has returned (deferred, soft), or earlier if the
+// handler itself called Async.
+//@ func (*Connection).handleAsync$2 [C03]
+//@   requires releaser != nil
+//@   track c.handler.Handle as handle
+//@   track release as releaseDispatcher
+//@   track processResult as finish
+//@   modifies *
+//@   requires c != nil
+//@   assert at call release: @released-after-handler-returned calls(handle) == 1 && $1
+//@   assert at call processResult: @result-processed-after-handler calls(handle) == 1
+//@   ensures @exactly-once calls(handle) == 1 && calls(releaseDispatcher) == 1 && calls(finish) == 1
+
+// release closes the channel exactly once; a second hard release (Async called twice) panics by design.
+//@ func (*releaser).release [C03]
+//@   requires r != nil
+// r.released and the closing of r.ch change together, only here, under r.mu (object invariant, assumed at entry)
+//@   assume r.ch != nil && (r.released <==> closed(r.ch))
+//@   modifies r.released, chanState
+//@   panics when r.released && !soft
+//@   ensures @released closed(r.ch) && r.released
+
+// ---------------------------------------------------------------------------------------------
+// C02: every accepted request is finished exactly once; calls get exactly one response echoing their id
+// ---------------------------------------------------------------------------------------------
+//@ func (*Connection).processResult [C02]
+//@   track write as respond
+//@   track processResult$1 as unindex
+//@   track processResult$2 as releaseSlot
+//@   track NewResponse as mkResponse
+//@   ghost isCall := old(req.ID.value != nil)
+//@   modifies *
+//@   requires c != nil
+//@   assume nomethodnotfoundcodeinerror != "1"
+//@   assert at call NewResponse: @echoes-request-id $0 == old(req.ID)
+//@   assert at call NewResponse: @unknown-method-code (errIs(old(err), ErrNotHandled) || errIs(old(err), ErrMethodNotFound)) ==> errIs($2, ErrMethodNotFound)
+//@   assert at call write: @unindexed-before-responding calls(unindex) == 1 && calls(respond) == 0 && $2 == iface(callResult(mkResponse, 1, 0))
+//@   ensures @calls-are-answered-at-most-once isCall ==> calls(respond) <= 1 && calls(unindex) == 1 && calls(mkResponse) == 1
+//@   ensures @answered-unless-unencodable isCall && callResult(mkResponse, 1, 1) == nil ==> calls(respond) == 1
+//@   ensures @notifications-are-never-answered !isCall ==> calls(respond) == 0 && calls(unindex) == 0 && calls(mkResponse) == 0
+//@   ensures @slot-released-once calls(releaseSlot) == 1
